@@ -63,6 +63,15 @@ def money_sub(chk, rng, w, mode):
                          "e": ["c", XR, [U(a), ["i", 1], U(b),
                                          num(rate_amt)]]}
         x = (2 * rng.randint(-300, 300) + 1) * w.quantum_of(src)
+    prov = "constructed"
+    if rng.random() < 0.3:
+        # the same operations with a rate object that came out of
+        # inverted() (as MoneyConverter.get_rate returns them towards the
+        # base currency); judged against that object's own stored rate
+        prov = "inverted"
+        rx = steps_body[0]["e"]
+        steps_body[0] = {"id": "x", "k": "x", "e": M(
+            ["c", XR, [rx[2][2], rx[2][1], rx[2][0], rx[2][3]]], "inverted")}
     steps_body.append({"id": "m", "k": "m", "e": Q(num(x), src)})
     steps_body.append({"k": "r", "e": e})
     steps = [{"setmode": mode, "body": steps_body}]
@@ -79,6 +88,7 @@ def money_sub(chk, rng, w, mode):
             return
         chk.case(("money", form, a, b, str(rate_amt), um, str(x), mode))
         chk.count("money|" + form)
+        chk.count("rate object|" + prov)
         wit = dict(info=info, obs=obs, steps=steps)
         if dst is None:
             if not is_exc(r, "ValueError") or is_exc(r, "QuantityError") \
@@ -88,7 +98,10 @@ def money_sub(chk, rng, w, mode):
                               (src, a, b, form, brief(r)), wit,
                               "money-mismatch")
             return
-        exact = val(m) * (xr["inv"] if form == "div" else xr["rate"])
+        # from the stored unit multiple and term amount, not from what the
+        # object reports as its (inverse) rate
+        exact = val(m) * (xr["um"] / xr["ta"] if form == "div"
+                          else xr["ta"] / xr["um"])
         qd = w.quantum_of(dst)
         want = RM.round_to(exact, qd, mode)
         if (exact / qd).denominator != 1:
@@ -175,6 +188,10 @@ def price_world(chk, rng, wi):
                     b = rng.choice([c for c in CURS if c != cur])
                 xexpr = ["c", XR, [U(a), ["i", rng.choice([1, 10, 100])], U(b),
                                    num(rate_amt)]]
+                if rng.random() < 0.25:
+                    # a rate that came out of inverted()
+                    xexpr = M(["c", XR, [U(b), xexpr[2][1], U(a),
+                                         num(rate_amt)]], "inverted")
             if rng.random() < 0.6:
                 cand = [s_ for s_ in shared if cur in s_[:2]] or shared
                 a, b, rate_amt, var = rng.choice(cand)
@@ -219,7 +236,8 @@ def price_world(chk, rng, wi):
                                   "price-mismatch")
                 return
             u = w.units[sym]
-            factor = xr["inv"] if form == "div" else xr["rate"]
+            factor = xr["um"] / xr["ta"] if form == "div" \
+                else xr["ta"] / xr["um"]
             value = val(p) * u.factor * factor
             vec = dict(u.vec)
             del vec[src_cur]
@@ -274,7 +292,7 @@ def run(chk, R, tier, seed):
               "money|mismatch-div", "price|declared target",
               "price|undeclared target", "price|mismatching currency",
               "price|no-money", "price|order mul", "price|order rmul",
-              "price|order div", "worlds"):
+              "price|order div", "worlds", "rate object|inverted"):
         chk.require(c)
     for mode in RM.MODES:
         chk.require("mode|%s|tie" % mode)
